@@ -115,6 +115,26 @@ class Ctx:
             self._scan()
         return self._decl
 
+    def trivial_getter(self, callnode):
+        """qualified field name F if the callee is a const member function whose body is `return F;` (F a field of *this)."""
+        if self.db is None:
+            return None
+        cf = self.db.callee_fn(callnode)
+        if cf is None or not cf.d.get("const") or cf.params or cf.body is None or cf.body < 0 or cf.d.get("virtual"):
+            return None
+        cache = self.db.__dict__.setdefault("_getter_cache", {})
+        if cf.mangled in cache:
+            return cache[cf.mangled]
+        res = None
+        b = cf.nodes[cf.body]
+        st = [c for c in b["body"] if c is not None and cf.nodes[c]["k"] != "null"] if b["k"] == "block" else []
+        if len(st) == 1 and cf.nodes[st[0]]["k"] == "return" and cf.nodes[st[0]].get("sub") is not None:
+            e = cf.nodes[cf.nodes[st[0]]["sub"]]
+            if e["k"] == "member" and cf.nodes[e["base"]]["k"] == "this" and not e.get("ismethod"):
+                res = strip_targs(e["q"])
+        cache[cf.mangled] = res
+        return res
+
     def single_assignment(self, d):
         """True iff local d is initialised at its declaration and never modified afterwards."""
         v = self.decls.get(d)
@@ -180,7 +200,11 @@ class Ctx:
             if n["ck"] == "op":
                 r = ("op", n["op"]) + args
             elif n["ck"] == "method":
-                r = ("mcall", strip_targs(n.get("cname")), K(n["obj"]) if n.get("obj") is not None else ("none",)) + args
+                g = self.trivial_getter(n)
+                if g is not None and n.get("obj") is not None and not args:
+                    r = ("field", g, K(n["obj"]))
+                else:
+                    r = ("mcall", strip_targs(n.get("cname")), K(n["obj"]) if n.get("obj") is not None else ("none",)) + args
             else:
                 r = ("call", strip_targs(n.get("cname")) or K(n.get("calleeexpr"))) + args
         elif k == "construct":
@@ -278,9 +302,23 @@ def key_subst(key, f):
     return key
 
 
-def guard_facts(fn, ctx, kill_on_mutation=True):
+def _this_fields(key, acc=None):
+    acc = set() if acc is None else acc
+    if isinstance(key, tuple):
+        if len(key) == 3 and key[0] == "field" and key[2] == ("this",):
+            acc.add(key[1])
+        for x in key:
+            if isinstance(x, tuple):
+                _this_fields(x, acc)
+    return acc
+
+
+def guard_facts(fn, ctx, kill_on_mutation=True, effects=None):
     """Forward must-analysis: at[(block, idx)] = frozenset of facts (see Ctx.cmp_fact) that
-    hold on every path reaching that CFG position."""
+    hold on every path reaching that CFG position.
+    Facts come from branch edges and from assignments `x = e` (x a local or a field of *this).
+    Facts about a local are killed when it is modified; facts about a field of *this when the
+    field is assigned or a non-const member function that may write it (effects) is called."""
     cfg = fn.cfg
     mutnodes = {}
     for d, ns in ctx.mut.items():
@@ -291,6 +329,68 @@ def guard_facts(fn, ctx, kill_on_mutation=True):
     for d, v in ctx.decls.items():
         if "declnode" in v:
             declnodes.setdefault(v["declnode"], set()).add(d)
+    # field writes
+    fieldkill = {}      # node -> set of field names or {"*"}
+    gens = {}           # node -> fact generated after the node
+    roots = [fn.body] if fn.body is not None and fn.body >= 0 else []
+    for r in roots:
+        for j, n in fn.walk(r):
+            k = n["k"]
+            tgt = None
+            if k == "bin" and n["op"] in ASSIGN_OPS:
+                tgt = n["l"]
+            elif k == "un" and n["op"] in ("++", "--"):
+                tgt = n["sub"]
+            if tgt is not None:
+                t = fn.nodes[tgt]
+                # walk down to the outermost member of this
+                x = tgt
+                fld = None
+                for _ in range(20):
+                    xn = fn.nodes[x]
+                    if xn["k"] == "member":
+                        if fn.nodes[xn["base"]]["k"] == "this":
+                            fld = strip_targs(xn["q"])
+                            break
+                        x = xn["base"]
+                    elif xn["k"] == "index":
+                        x = xn["base"]
+                    elif xn["k"] == "call" and xn.get("ck") == "op" and xn.get("op") in ("[]", "()") and xn["args"]:
+                        x = xn["args"][0]
+                    else:
+                        break
+                if fld:
+                    fieldkill.setdefault(j, set()).add(fld)
+                if k == "bin" and n["op"] == "=":
+                    try:
+                        lk = ctx.key(n["l"], inline=False)
+                        rk = ctx.key(n["r"], inline=True)
+                        if (lk[0] == "var" or (lk[0] == "field" and lk[2] == ("this",))) and not key_contains(rk, lambda y: y == lk) \
+                                and not key_contains(rk, lambda y: isinstance(y, tuple) and y and y[0] in ("unknown", "new", "throw")):
+                            a, b = (lk, rk) if repr(lk) <= repr(rk) else (rk, lk)
+                            gens[j] = ("==", a, b)
+                    except AnalysisBroken:
+                        pass
+            elif k == "call":
+                obj = None
+                if n["ck"] == "method" and n.get("obj") is not None:
+                    obj = n["obj"]
+                elif n["ck"] == "op" and n.get("ismember") and n["args"]:
+                    obj = n["args"][0]
+                if obj is not None and not n.get("cconst", False):
+                    on = fn.nodes[obj]
+                    if on["k"] == "this":
+                        cf = ctx.db.callee_fn(n) if ctx.db is not None else None
+                        if effects is not None and cf is not None:
+                            w = {x for x in effects.this_writes(cf) if not x.startswith("deref:")}
+                            if w:
+                                fieldkill.setdefault(j, set()).update(w)
+                        else:
+                            fieldkill.setdefault(j, set()).add("*")
+                    elif on["k"] == "member" and fn.nodes[on["base"]]["k"] == "this":
+                        short = strip_targs(n.get("cname") or "").split("::")[-1]
+                        if not ((n.get("cname") or "").startswith("std::") and short in STD_ACCESSORS):
+                            fieldkill.setdefault(j, set()).add(strip_targs(on["q"]))
 
     def transfer(st, b, i, e):
         nid = e[2] if isinstance(e, tuple) else e
@@ -301,6 +401,15 @@ def guard_facts(fn, ctx, kill_on_mutation=True):
             ds |= declnodes[nid]
         if ds and st:
             st = frozenset(f for f in st if not (key_vars(f) & ds))
+        fk = fieldkill.get(nid)
+        if fk and st:
+            if "*" in fk:
+                st = frozenset(f for f in st if not _this_fields(f))
+            else:
+                st = frozenset(f for f in st if not (_this_fields(f) & fk))
+        g = gens.get(nid)
+        if g is not None:
+            st = st | {g}
         return st
 
     def edge(st, b, k, label):
